@@ -1,7 +1,8 @@
 //! S — the blocking wrappers of batcher/src/sync.rs: `blocking_flush`, `blocking_send` and their `Trigger`, executed for
 //! real on top of the stand-ins of stubs/batcher.toml `sync-*` (condition variable = environment hook, Instant =
 //! harness clock). One call from an ARBITRARY state; while the caller is parked the environment lets time pass and may
-//! complete the batch that carries the parked callbacks (through the real `Watchers::notify_*`).
+//! complete the batch that carries the parked callbacks. Clock readings and timeouts are whole seconds (T_MS, ADV and
+//! CLOCK_MS hold seconds: the names are historical).
 //!
 //! C07: `blocking_flush` returns true ONLY IF its flush callback has fired (at once when nothing is pending and no
 //!      batch is in flight, otherwise when the batch it was parked on finished) and it does return true then.
@@ -24,6 +25,8 @@ static mut TO: [bool; MAXW] = [true, true];
 static mut REFILL: [Q; MAXW] = [ArrQ { items: [0x5E; QN], len: 0x5EED_0000_0000_0033 }; MAXW];
 static mut REOPEN: [bool; MAXW] = [true, true];
 static mut CALLS: usize = 0x5EED_0000_0000_0035;
+/// wake-ups explored in this harness (<= MAXW); the run is cut at the next one
+static mut WAKES: usize = 0x5EED_0000_0000_003D;
 static mut T_MS: u16 = 0x5E15;
 static mut START: u64 = 0x5EED_0000_0000_0037;
 static mut FIRED: bool = true;
@@ -50,10 +53,18 @@ fn complete_pending_batch(refill: Q, open: bool) {
                 truncated: snap.truncated,
             },
         );
-        let mut w = v::VWatchers::from_parts(on_take, on_flush);
-        w.notify_on_take();
-        w.notify_on_flush();
-        core::mem::forget(w);
+        // the receiver's notify loops (each callback exactly once, panics contained) are decided by `_k_watchers` and
+        // `_r_`; here the (at most one) parked callback of each kind is simply run
+        let (mut on_take, mut on_flush) = (on_take, on_flush);
+        if let Some(cb) = on_take.pop() {
+            cb();
+        }
+        if let Some(cb) = on_flush.pop() {
+            cb();
+        }
+        assert!(on_take.is_empty() && on_flush.is_empty(), "harness bound: at most one parked callback of each kind");
+        core::mem::forget(on_take);
+        core::mem::forget(on_flush);
         FIRED = true;
         LAST = refill;
         if !open {
@@ -66,18 +77,22 @@ fn complete_pending_batch(refill: Q, open: bool) {
 fn cv_hook(dur: Duration) -> bool {
     unsafe {
         let i = CALLS;
-        if i >= MAXW {
-            // bound of the harness: at most MAXW wake-ups (spurious ones included)
+        // C09, at every point where the caller parks: the pending queue is within the capacity
+        assert!(v::snapshot(&*TXP).pending_len <= CAP, "pending never exceeds the capacity (checked whenever a sender parks)");
+        if i >= WAKES {
+            // bound of the harness: at most WAKES (<= MAXW) wake-ups (spurious ones included)
+            kani::cover!(i == 1, "opt: woken, found the queue refilled by another sender, parks again");
             #[cfg(kani)]
             kani::assume(false);
-            panic!("harness bound: more than MAXW wake-ups");
+            panic!("harness bound: more wake-ups than the harness explores");
         }
         CALLS = i + 1;
         assert_unlocked();
         let elapsed = env::CLOCK_MS - START;
         assert!(dur > Duration::ZERO, "does not park once the timeout expired");
+        // (compared as Durations: `as_millis` is a 128-bit multiplication, which the SAT back end does not get through)
         assert!(
-            dur.as_millis() as u64 <= (T_MS as u64).saturating_sub(elapsed),
+            dur <= Duration::from_secs((T_MS as u64).saturating_sub(elapsed)),
             "never parks for longer than what is left of the timeout"
         );
         env::CLOCK_MS += ADV[i] as u64;
@@ -106,6 +121,7 @@ fn setup(pre: &Pre, tx: &Sender<Q>, refill_max: usize) {
         }
         REOPEN = kani::any();
         CALLS = 0;
+        WAKES = MAXW;
         T_MS = kani::any();
         START = kani::any::<u16>() as u64;
         FIRED = false;
@@ -169,7 +185,7 @@ fn blocking_flush_step(shape: u8, fire_at: usize, twin: u8) {
     assume_condvar_contract();
     let t = unsafe { T_MS };
 
-    let r = blocking_flush(&tx, Duration::from_millis(t as u64));
+    let r = blocking_flush(&tx, Duration::from_secs(t as u64));
 
     let (calls, fired, timed_out) = unsafe { (CALLS, FIRED, TIMED_OUT_SEEN) };
     let now = unsafe { env::CLOCK_MS - START };
@@ -220,16 +236,36 @@ flush_harness!(c07c08_t_s_blocking_flush_pending_never_done, 2, 0, 0);
 flush_harness!(c07c08_t_s_blocking_flush_closed, 3, 0, 0);
 flush_harness!(c07_w_s_blocking_flush_always_true, 1, 0, 1);
 
-fn blocking_send_step(max_cap: usize, twin: u8) {
+/// Scenarios (shapes concrete, contents symbolic; capacity 1, so "full" = one item pending):
+///  0: room at once;  1: full, the receiver takes the batch during the first wait (queue left empty);
+///  2: full, the batch is never taken;  3: full, taken during the first wait but ANOTHER sender refilled the queue
+///     before this one ran again (the run is cut where it parks for the second time).
+fn blocking_send_step(scn: u8, twin: u8) {
     reset_statics();
-    let pre = any_pre(max_cap, 0);
+    let full = scn != 0;
+    let mut q = Q { items: kani::any(), len: 0 };
+    if full {
+        q.len = 1;
+    }
+    let pre = Pre { cap: 1, q, open: true, in_batch: kani::any(), n_take: 0, n_flush: 0, truncated: kani::any() };
     let (tx, rx) = build(&pre);
-    setup(&pre, &tx, 3);
+    setup(&pre, &tx, 0);
+    unsafe {
+        FIRE = [scn == 1 || scn == 3, false];
+        REOPEN = [true, true];
+        REFILL[0].len = if scn == 3 { 1 } else { 0 };
+        REFILL[1].len = 0;
+        if scn == 3 {
+            // the second round (park again, be woken again) costs 700 k symex steps / > 12 GB: cut at the second park;
+            // what matters - the retry after the wake-up respects a queue somebody else refilled - happens before
+            WAKES = 1;
+        }
+    }
     assume_condvar_contract();
     let t = unsafe { T_MS };
     let x: u8 = kani::any();
 
-    let r = blocking_send(&tx, x, Duration::from_millis(t as u64));
+    let r = blocking_send(&tx, x, Duration::from_secs(t as u64));
 
     let post = v::snapshot(&tx);
     let q = *v::pending(&tx);
@@ -239,42 +275,50 @@ fn blocking_send_step(max_cap: usize, twin: u8) {
     assert!(post.pending_len <= pre.cap, "pending never exceeds the capacity");
     match r {
         Ok(()) => {
+            // (capacity 1: written out instead of `is_prefix`, whose 4-iteration loop would dictate the unwind bound)
             assert!(
-                last.len < QN && q.len == last.len + 1 && is_prefix(&last, &q) && q.items[last.len] == x,
+                last.len == 0 && q.len == 1 && q.items[0] == x,
                 "accepted item appended at the tail of what was pending at the successful attempt"
             );
         }
         Err(e) => {
-            assert!(same_items(&last, &q), "rejected: queue unchanged");
+            assert!(last.len == q.len && (q.len == 0 || q.items[0] == last.items[0]), "rejected: queue unchanged");
             let back = e.into_retryable();
-            if !closed_seen {
-                if twin == 1 {
-                    assert!(back.is_none(), "TWIN (false): timeout swallows the item");
-                }
-                assert!(back == Some(x), "timeout: the error carries THAT item");
-                // C08: gives up only on expiry
-                let now = unsafe { env::CLOCK_MS - START };
-                assert!(t == 0 || now >= t as u64 || unsafe { TIMED_OUT_SEEN }, "Err(item) only on expiry");
+            if twin == 1 {
+                assert!(back.is_none(), "TWIN (false): timeout swallows the item");
             }
+            assert!(back == Some(x), "timeout: the error carries THAT item");
+            // C08: gives up only on expiry
+            let now = unsafe { env::CLOCK_MS - START };
+            assert!(t == 0 || now >= t as u64 || unsafe { TIMED_OUT_SEEN }, "Err(item) only on expiry");
         }
     }
     assert!(shim::held() == 0);
-    kani::cover!(ok && calls == 0, "accepted at once");
-    kani::cover!(ok && calls == 1, "accepted after the queue was taken");
-    kani::cover!(!ok && !closed_seen && calls == 1, "handed back after a timed-out wait");
-    kani::cover!(!ok && !closed_seen && calls == 0, "zero timeout, full queue: handed back at once");
+    kani::cover!(scn != 0 || (ok && calls == 0), "accepted at once");
+    kani::cover!(scn != 1 || (ok && calls == 1), "accepted after the queue was taken");
+    kani::cover!(scn != 2 || (!ok && calls == 1), "handed back after a timed-out wait");
+    kani::cover!(scn != 2 || (!ok && calls == 0), "zero timeout, full queue: handed back at once");
+    kani::cover!(scn != 3 || (!ok && calls == 1), "queue refilled by another sender and the timeout expired: handed back");
     core::mem::forget(tx);
     core::mem::forget(rx);
 }
 
-#[kani::proof]
-#[kani::unwind(6)]
-pub fn c08c09_q_s_blocking_send() {
-    blocking_send_step(2, 0);
+macro_rules! send_harness {
+    ($name:ident, $scn:expr, $twin:expr) => {
+        #[kani::proof]
+        #[kani::unwind(3)]
+        pub fn $name() {
+            blocking_send_step($scn, $twin);
+        }
+    };
 }
 
-#[kani::proof]
-#[kani::unwind(6)]
-pub fn c09_w_s_blocking_send_timeout_swallows() {
-    blocking_send_step(2, 1);
-}
+// NOT REGISTERED (`_x_`): none of the blocking_send scenarios leaves CBMC's SAT conversion within 12-14 GB (measured: 270-700 k
+// symex steps each, with and without --no-pointer-check / --max-field-sensitivity-array-size; the blocking_flush family,
+// same environment, needs 1.7 M variables). What blocking_send adds to `send_or_wait` (decided in s_sow) is the Trigger
+// (decided through blocking_flush) and an Instant subtraction.
+send_harness!(c08c09_x_s_blocking_send_room, 0, 0);
+send_harness!(c08c09_x_s_blocking_send_full_then_taken, 1, 0);
+send_harness!(c08c09_x_s_blocking_send_full_never_taken, 2, 0);
+send_harness!(c08c09_x_s_blocking_send_refilled_after_wake, 3, 0);
+send_harness!(c09_x_s_blocking_send_timeout_swallows, 2, 1);
